@@ -140,7 +140,7 @@ def harness_schedules(ms, tier, rng):
         for role in roles:
             for w in watchers:
                 procs = {p: ENTRY.get(e, e) for p, e in m["procs"].items()}
-                model = dict(mwatcher=m["watcher"], mrole=m["role"], prep=m["prep"], chain=m["chain"], d0=d0, mines=mines, mprocs=m["procs"])
+                model = dict(mwatcher=m["watcher"], mrole=m["role"], prep=m["prep"], chain=m["chain"], d0=d0, mines=mines, mprocs=m["procs"], lbtc=(w != "rpc"))
                 out.append(dict(name="%s|%s|%s" % (m["name"], role, w), watcher=w, role=role, stage=STAGE[m["prep"]],
                                 csv=("none" if taker else CSVOF[m["chain"]]), restart=m["restart"], faults=m["faults"], procs=procs,
                                 steps=m["steps"], mine=(3 if taker else 1), deadlock=m["deadlock"], **{"class": m["class"]}, model=model))
@@ -212,6 +212,7 @@ def merge_traces(res, dst, keep=("reset", "start", "ret", "step", "after", "dead
                         k += 1
                         m = e.pop("model", None) or {}
                         e.update(m)
+                        e["wkind"] = "el" if e.get("watcher") == "el" else "rpc"
                         meta[k] = dict(name=e.get("name"), file=outp)
                     e["t"] = k
                     if e["ev"] in ("deadlock",) and len(samples) < 3:
